@@ -107,14 +107,14 @@ func TestVerifC39(t *testing.T) {
 			"(ordset 4096 keys, ranges 128 ranges) and must leave the contents unchanged")
 	defer rep.Finish()
 	suites := []suite{
-		{"ordset", 2400, 200000, runOrdset, 60},
-		{"ranges", 2400, 200000, runRanges, 60},
-		{"sortlist", 1200, 60000, runSortlist, 0},
-		{"bloom", 1200, 100000, runBloom, 0},
-		{"roaring", 1200, 60000, runRoaring, 0},
-		{"shmap", 2400, 200000, runShmap, 0},
-		{"lrucache", 2400, 200000, runLru, 0},
-		{"cache", 2400, 200000, runCache, 0},
+		{"ordset", 2400, 60000, runOrdset, 60},
+		{"ranges", 2400, 60000, runRanges, 60},
+		{"sortlist", 1200, 20000, runSortlist, 0},
+		{"bloom", 1200, 30000, runBloom, 0},
+		{"roaring", 1200, 20000, runRoaring, 0},
+		{"shmap", 2400, 60000, runShmap, 0},
+		{"lrucache", 2400, 60000, runLru, 0},
+		{"cache", 2400, 60000, runCache, 0},
 	}
 	for si, s := range suites {
 		n := vk.N(s.quick, s.thorough)
